@@ -106,7 +106,7 @@ theorem rel_decide_eq (mi : MotorInfo) (view : PosView R) (devices : Option (Lis
         else .pass := by
   cases ho : m.obj with
   | none => simp [relSpec, ho]
-  | some d => simp only [relSpec, ho, relTrigger]
+  | some d => simp only [relSpec, ho, relTrigger]; rfl
 
 theorem relSpec_ok (mi : MotorInfo) (view : PosView R) (devices : Option (List Dev)) :
     (relSpec mi view devices).OK where
@@ -181,6 +181,248 @@ theorem resetPositions_eq (f : Nat) (mi : MotorInfo) (view : PosView R) (devices
       = emEnvOut (relSpec mi view devices) PMsg.ident [] [] ((Pos.new plan).resume (.send default)) used :=
   (drive_envMutatorA (relSpec mi view devices) (relSpec_ok mi view devices) PMsg.ident [] plan f false
     used hn).2
+
+/-! ### `initial_positions` -/
+
+theorem posGet_append_new (env : Positions) (d : Dev) (x : Int) (h : posGet env d = none) (d' : Dev) :
+    posGet (env ++ [(d, x)]) d' = if d' = d then some x else posGet env d' := by
+  unfold posGet at *
+  by_cases hd : d' = d
+  · subst hd
+    rw [List.find?_append]
+    cases hf : env.find? (fun p => decide (p.1 = d')) with
+    | none => simp
+    | some y => simp [hf] at h
+  · rw [List.find?_append]
+    cases hf : env.find? (fun p => decide (p.1 = d')) with
+    | none => simp [hd, Ne.symm hd]
+    | some y => simp [hd]
+
+theorem posSet_new (env : Positions) (d : Dev) (x : Int) (h : posGet env d = none) :
+    posSet env d x = env ++ [(d, x)] := by
+  simp [posSet, h]
+
+/-- every recorded position stays what it is -/
+def PosExt (env env' : Positions) : Prop := ∀ d x, posGet env d = some x → posGet env' d = some x
+
+theorem PosExt.refl (env : Positions) : PosExt env env := fun _ _ h => h
+theorem PosExt.trans {a b c : Positions} (h1 : PosExt a b) (h2 : PosExt b c) : PosExt a c :=
+  fun d x h => h2 d x (h1 d x h)
+
+theorem posExt_set_new (env : Positions) (d : Dev) (x : Int) (h : posGet env d = none) :
+    PosExt env (posSet env d x) ∧ posGet (posSet env d x) d = some x := by
+  rw [posSet_new env d x h]
+  refine ⟨fun d' y hy => ?_, by simp [posGet_append_new env d x h]⟩
+  rw [posGet_append_new env d x h]
+  by_cases hd : d' = d
+  · subst hd; rw [h] at hy; cases hy
+  · simp [hd, hy]
+
+/-- **what `insert_reads` decides** for a message object `m` not seen before: if `m` is a `set` on
+an eligible device `d` without recorded position (`relTrigger`), the position is obtained first --
+by a `locate` / `read` query that goes out before `m` (`query m` mode: its answer, 0 for None, is
+recorded, then `m` follows) or, when the device has a `.position`, silently (recorded at once, `m`
+goes out with `initial_positions[d]` known); every other message goes out with
+`initial_positions` unchanged. -/
+theorem rel_decide (mi : MotorInfo) (view : PosView R) (devices : Option (List Dev))
+    (seen : List (List Nat)) (env : Positions) (m : PMsg) (hs : m.ident ∉ seen) :
+    let dec := emDecide (relSpec mi view devices) PMsg.ident seen env m
+    (∃ d, m.obj = some d ∧ relTrigger devices env m d = true ∧ posSource mi d ≠ .attribute ∧
+        dec.2.1 = env ∧ dec.2.2.1 = .query m ∧
+        dec.2.2.2 = queryMsg (if posSource mi d = .locate then .locate else .read) d) ∨
+    (∃ d, m.obj = some d ∧ relTrigger devices env m d = true ∧ posSource mi d = .attribute ∧
+        dec.2.1 = posSet env d (mi.position d) ∧ (∀ m', dec.2.2.1 ≠ .query m') ∧ dec.2.2.2 = m) ∨
+    ((∀ d, m.obj = some d → relTrigger devices env m d = false) ∧
+        dec.2.1 = env ∧ (∀ m', dec.2.2.1 ≠ .query m') ∧ dec.2.2.2 = m) := by
+  intro dec
+  show _ ∨ _ ∨ _
+  cases ho : m.obj with
+  | none =>
+    refine .inr (.inr ⟨by simp, ?_, ?_, ?_⟩) <;>
+      simp [dec, emDecide, hs, rel_decide_eq, ho]
+  | some d =>
+    by_cases ht : relTrigger devices env m d = true
+    · cases hsrc : posSource mi d with
+      | locate =>
+        refine .inl ⟨d, rfl, ht, by simp [hsrc], ?_, ?_, ?_⟩ <;>
+          simp [dec, emDecide, hs, rel_decide_eq, ho, ht, hsrc]
+      | read =>
+        refine .inl ⟨d, rfl, ht, by simp [hsrc], ?_, ?_, ?_⟩ <;>
+          simp [dec, emDecide, hs, rel_decide_eq, ho, ht, hsrc]
+      | «attribute» =>
+        refine .inr (.inl ⟨d, rfl, ht, hsrc, ?_, ?_, ?_⟩) <;>
+          simp only [dec, emDecide, rel_decide_eq, ho, ht, hsrc] <;> simp [hs, relSpec, ho]
+    · have ht' : relTrigger devices env m d = false := by simpa using ht
+      refine .inr (.inr ⟨by intro d' hd'; cases hd'; exact ht', ?_, ?_, ?_⟩) <;>
+        simp [dec, emDecide, hs, rel_decide_eq, ho, ht']
+
+/-- what is known about a pending query -/
+def RelInv (env : Positions) : EmMode PMsg → PMsg → Prop
+  | .plain, _ => True
+  | .query _, q => ∃ d, q.obj = some d ∧ posGet env d = none
+
+theorem relTrigger_none {devices : Option (List Dev)} {env : Positions} {m : PMsg} {d : Dev}
+    (h : relTrigger devices env m d = true) : posGet env d = none := by
+  simp only [relTrigger, Bool.and_eq_true, Option.isNone_iff_eq_none] at h
+  exact h.2
+
+theorem rel_decide_inv (mi : MotorInfo) (view : PosView R) (devices : Option (List Dev))
+    (seen : List (List Nat)) (env : Positions) (m : PMsg) :
+    PosExt env (emDecide (relSpec mi view devices) PMsg.ident seen env m).2.1 ∧
+    RelInv (emDecide (relSpec mi view devices) PMsg.ident seen env m).2.1
+      (emDecide (relSpec mi view devices) PMsg.ident seen env m).2.2.1
+      (emDecide (relSpec mi view devices) PMsg.ident seen env m).2.2.2 := by
+  by_cases hs : m.ident ∈ seen
+  · simp [emDecide, hs, PosExt.refl, RelInv]
+  · rcases rel_decide mi view devices seen env m hs with
+      ⟨d, _, ht, _, h1, h2, h3⟩ | ⟨d, _, ht, _, h1, h2, _⟩ | ⟨_, h1, h2, _⟩
+    · rw [h1, h2, h3]
+      exact ⟨PosExt.refl _, d, by simp [queryMsg], relTrigger_none ht⟩
+    · rw [h1]
+      refine ⟨(posExt_set_new env d _ (relTrigger_none ht)).1, ?_⟩
+      cases hm : (emDecide (relSpec mi view devices) PMsg.ident seen env m).2.2.1 with
+      | plain => trivial
+      | query m' => exact absurd hm (h2 m')
+    · rw [h1]
+      refine ⟨PosExt.refl _, ?_⟩
+      cases hm : (emDecide (relSpec mi view devices) PMsg.ident seen env m).2.2.1 with
+      | plain => trivial
+      | query m' => exact absurd hm (h2 m')
+
+/-- **The initial position of a device is obtained once**: along the whole run, whatever the plan
+and the script do, a position recorded in `initial_positions` is never changed -- every later
+message is annotated with an extension of it, and so is the final value. -/
+theorem rel_env_ext (mi : MotorInfo) (view : PosView R) (devices : Option (List Dev)) (c : Bool)
+    (ins : List (Inp R E)) :
+    ∀ (seen : List (List Nat)) (env : Positions) (p : Pos PMsg R R E) (mode : EmMode PMsg) (em : PMsg),
+      RelInv env mode em →
+      (∀ x ∈ (emGo c (relSpec mi view devices) PMsg.ident seen env p mode em ins).msgs, PosExt env x.2) ∧
+      PosExt env (emEnvGo (relSpec mi view devices) PMsg.ident seen env p mode em ins) := by
+  induction ins with
+  | nil =>
+    intro seen env p mode em _
+    exact ⟨by simp [emGo, PosExt.refl], PosExt.refl _⟩
+  | cons i rest ih =>
+    intro seen env p mode em hinv
+    rw [emGo, emEnvGo]
+    cases hin : emInput mode i with
+    | answer r m =>
+      have hm : mode = .query m := by
+        cases mode <;> cases i <;> simp only [emInput] at hin
+        · cases hin
+        · split at hin <;> cases hin
+        · cases hin; rfl
+        · split at hin <;> cases hin
+      subst hm
+      obtain ⟨d, hd, hnone⟩ := hinv
+      simp only []
+      have hupd : (relSpec mi view devices).updAsk em r env = posSet env d ((view.asPos em r).getD 0) := by
+        simp [relSpec, hd]
+      obtain ⟨e1, _⟩ := posExt_set_new env d ((view.asPos em r).getD 0) hnone
+      obtain ⟨g1, g2⟩ := ih seen ((relSpec mi view devices).updAsk em r env) p .plain m trivial
+      rw [hupd] at g1 g2 ⊢
+      refine ⟨?_, e1.trans g2⟩
+      intro x hx
+      simp only [Drv.cons, List.mem_cons] at hx
+      rcases hx with rfl | hx
+      · exact PosExt.refl _
+      · exact e1.trans (g1 x hx)
+    | leave e => exact ⟨by simp [PosExt.refl], PosExt.refl _⟩
+    | feed =>
+      simp only []
+      rcases p.resume i with ⟨o, p'⟩
+      cases o with
+      | yld m' =>
+        obtain ⟨e1, e2⟩ := rel_decide_inv mi view devices seen env m'
+        obtain ⟨g1, g2⟩ := ih _ _ p' _ _ e2
+        refine ⟨?_, e1.trans g2⟩
+        intro x hx
+        simp only [Drv.cons, List.mem_cons] at hx
+        rcases hx with rfl | hx
+        · exact PosExt.refl _
+        · exact e1.trans (g1 x hx)
+      | ret v => exact ⟨by simp [PosExt.refl], PosExt.refl _⟩
+      | raise x => exact ⟨by simp [PosExt.refl], PosExt.refl _⟩
+
+theorem rel_pairwise (mi : MotorInfo) (view : PosView R) (devices : Option (List Dev)) (c : Bool)
+    (ins : List (Inp R E)) :
+    ∀ (seen : List (List Nat)) (env : Positions) (p : Pos PMsg R R E) (mode : EmMode PMsg) (em : PMsg),
+      RelInv env mode em →
+      (emGo c (relSpec mi view devices) PMsg.ident seen env p mode em ins).msgs.Pairwise
+        (fun a b => PosExt a.2 b.2) := by
+  induction ins with
+  | nil => intro seen env p mode em _; simp [emGo]
+  | cons i rest ih =>
+    intro seen env p mode em hinv
+    have hext := (rel_env_ext mi view devices c (i :: rest) seen env p mode em hinv).1
+    rw [emGo] at hext ⊢
+    cases hin : emInput mode i with
+    | answer r m =>
+      have hm : mode = .query m := by
+        cases mode <;> cases i <;> simp only [emInput] at hin
+        · cases hin
+        · split at hin <;> cases hin
+        · cases hin; rfl
+        · split at hin <;> cases hin
+      subst hm
+      simp only [hin] at hext ⊢
+      simp only [Drv.cons, List.pairwise_cons]
+      exact ⟨fun x hx => hext x (List.mem_cons_of_mem _ hx), ih _ _ _ _ _ trivial⟩
+    | leave e => simp
+    | feed =>
+      simp only [hin] at hext ⊢
+      generalize p.resume i = r0 at hext ⊢
+      rcases r0 with ⟨o, p'⟩
+      cases o with
+      | yld m' =>
+        simp only [Drv.cons, List.pairwise_cons] at hext ⊢
+        exact ⟨fun x hx => hext x (List.mem_cons_of_mem _ hx),
+          ih _ _ _ _ _ (rel_decide_inv mi view devices seen env m').2⟩
+      | ret v => simp
+      | raise x => simp
+
+/-- along the whole wrapped part, recorded positions never change -/
+theorem relBody_pairwise (mi : MotorInfo) (view : PosView R) (devices : Option (List Dev))
+    (plan : PBeh R E) (c : Bool) (ins : List (Inp R E)) :
+    (relBody mi view devices plan c ins).msgs.Pairwise (fun a b => PosExt a.2 b.2) := by
+  unfold relBody emOut
+  rcases (Pos.new plan).resume (.send default) with ⟨o, p'⟩
+  cases o with
+  | yld m' => exact rel_pairwise mi view devices c ins _ _ p' _ _ (rel_decide_inv mi view devices [] [] m').2
+  | ret v => simp [Drv.done]
+  | raise x => simp [Drv.done]
+
+/-! ### `rewrite_pos` and `reset` -/
+
+/-- a `set d rel` goes out as `set d (init + rel)` when `initial_positions[d] = init` -/
+theorem rewrite_set (m : PMsg) (env : Positions) (d : Dev) (rel init : Int) (hc : m.cmd = .set)
+    (ho : m.obj = some d) (hn : m.num = some rel) (hi : posGet env d = some init) :
+    rewriteMsg (m, env) = { m with ident := 9 :: m.ident, num := some (init + rel) } := by
+  simp [rewriteMsg, hc, ho, hn, hi, Generated.rsCombine, RelOp.apply]
+
+/-- every other message, and a `set` on a device without recorded position, goes out unchanged -/
+theorem rewrite_other (m : PMsg) (env : Positions)
+    (h : m.cmd ≠ .set ∨ ∀ d, m.obj = some d → posGet env d = none) : rewriteMsg (m, env) = m := by
+  rcases h with h | h
+  · simp [rewriteMsg, h]
+  · simp only [rewriteMsg]
+    split
+    · cases ho : m.obj with
+      | none => simp
+      | some d => cases hnum : m.num <;> simp [h d ho]
+    · rfl
+
+/-- **`reset()`** answered throughout: `set d (init d)` (group 0) for every recorded device, in
+recording order, then `wait` on that group -/
+theorem resetProg_drive (env : Positions) (c : Bool) (rs : List R) (rest : List (Inp R E))
+    (h : rs.length = env.length + 1) :
+    (resetProg env : Prog PMsg R R E).drive c (rs.map .send ++ rest)
+      = Drv.pre (env.map (fun p => setMsg p.1 p.2 (some 0)) ++ [waitMsg 0])
+          (Drv.done (.ret default) rest) := by
+  unfold resetProg
+  simp only [Generated.rpResetOrder, Order.apply]
+  rw [Prog.drive_msgs_send c _ _ rs rest (by simp [h])]
+  rfl
 
 end
 end BlueskyVerif.Gen
